@@ -6,12 +6,15 @@ import itertools, json, os, re, sys
 
 import vfutil
 
-RULE = ('action programs: 1..9 top-level actions, each with discriminator None / one of 3 values / a Deferred thunk '
+RULE = ('(a) action programs: 1..9 top-level actions, each with discriminator None / one of 3 values / a Deferred thunk '
         'reading the log, phase in {-20,-10,0,10}, include path a node of a random include tree (<= 6 nodes), and '
         '0..3 actions it appends while it executes (nesting <= 2); run on ActionState.execute_actions directly '
         '(arbitrary path labels) and through Configurator.action/include/commit (paths built by real nested '
         'include calls, also includes issued while an action executes).  A program is non-trivial when at least one '
-        'discriminator value is shared by >= 2 declared actions or some executed action appends actions; distinct = '
+        'discriminator value is shared by >= 2 declared actions or some executed action appends actions; (b) configuration '
+        'programs: trees of declare/include/commit statements (<= 14 statements, nesting <= 4, specs from <= 5 labels so that '
+        're-includes happen, optional route prefixes, callables that declare and include while executing, 12 % autocommit) '
+        'run on a real Configurator; non-trivial when >= 2 declarations and (an include or >= 2 commits); distinct = '
         'distinct canonical case JSON')
 
 PHASES = [-20, -10, 0, 10]
@@ -30,6 +33,8 @@ def walk(nodes):
 
 def well_formed(case):
     try:
+        if case.get('via') == 'program':
+            return well_formed_program(case)
         if case.get('via') not in ('state', 'config') or not isinstance(case['top'], list):
             return False
         ids = []
@@ -317,7 +322,335 @@ def impl_config(case, full=False):
     return out
 
 
+# ------------------------------------------------------------------------------------------------
+# configuration programs: trees of statements run through the real Configurator.action / include / commit
+# case = {"via":"program","autocommit":bool,"prog":[stmt,…]}
+# stmt = {"op":"declare","id":n,"disc":…,"order":i,"body":[stmt,…]}     config.action(disc, callable, order); the callable
+#                                                                      logs id, then runs body on the same configurator
+#      | {"op":"include","spec":n,"rp":None|n,"body":[stmt,…]}          config.include(inc_<spec>, route_prefix)
+#      | {"op":"commit"}                                               config.commit()
+
+def walk_prog(stmts, in_body=False):
+    for s in stmts:
+        yield s, in_body
+        if s.get('op') in ('declare', 'include'):
+            yield from walk_prog(s['body'], in_body or s['op'] == 'declare')
+
+
+def well_formed_program(case):
+    if set(case) != {'via', 'autocommit', 'prog'} or not isinstance(case['autocommit'], bool) or not isinstance(case['prog'], list):
+        return False
+    ids = []
+    for s, in_body in walk_prog(case['prog']):
+        op = s.get('op')
+        if op == 'declare':
+            if set(s) != {'op', 'id', 'disc', 'order', 'body'} or not isinstance(s['body'], list):
+                return False
+            if not (isinstance(s['id'], int) and s['id'] >= 0 and isinstance(s['order'], int)):
+                return False
+            d = s['disc']
+            if isinstance(d, dict):
+                if set(d) != {'dep', 'a', 'b'} or not (isinstance(d['dep'], int) and d['dep'] >= 0 and
+                        all(d[k] is None or (isinstance(d[k], int) and d[k] >= 0) for k in 'ab')):
+                    return False
+            elif not (d is None or (isinstance(d, int) and not isinstance(d, bool) and d >= 0)):
+                return False
+            ids.append(s['id'])
+        elif op == 'include':
+            if set(s) != {'op', 'spec', 'rp', 'body'} or not isinstance(s['body'], list):
+                return False
+            if not (isinstance(s['spec'], int) and 0 <= s['spec'] < 1000):
+                return False
+            if not (s['rp'] is None or (isinstance(s['rp'], int) and 0 <= s['rp'] < 1000)):
+                return False
+        elif op == 'commit':
+            if set(s) != {'op'} or (in_body and not case['autocommit']):
+                return False        # commit() from inside an executing action callable is outside the model
+        else:
+            return False
+    if not case['autocommit'] and _commit_under_prefix(case['prog'], False):
+        # route_prefix_context sets the prefix on the *including* configurator while the body runs, so a commit()
+        # issued inside such a body lets callables closed over the parent see the child's prefix (dynamic scoping);
+        # the model treats route prefixes lexically and leaves this combination out
+        return False
+    return len(set(ids)) == len(ids)
+
+
+def _commit_under_prefix(stmts, under):
+    for s in stmts:
+        if s['op'] == 'commit' and under:
+            return True
+        if s['op'] == 'include' and _commit_under_prefix(s['body'], under or s['rp'] is not None):
+            return True
+    return False
+
+
+class _Abort(Exception):
+    pass
+
+
+def impl_program(case):
+    """the program on a real root Configurator: returns per-commit outcomes, the pending actions left, and every
+    declaration as observed at config.action time (id, config.includepath, config.route_prefix)"""
+    from pyramid.config import Configurator
+    from pyramid.registry import Registry
+    auto = case['autocommit']
+    nodes = {s['id']: s for s, _ in walk_prog(case['prog']) if s['op'] == 'declare'}
+    log, evals = [], {}
+    declared, commits = [], []
+    seg = {'top': [], 'during': {}, 'stack': []}       # what was declared since the last commit, and by whom
+    config = Configurator(registry=Registry('vf_c04p'), package=sys.modules[__name__], autocommit=auto)
+
+    def labels(strs, sep=None):
+        return [int(x.rsplit('_', 1)[1]) for x in strs]
+
+    def run_stmts(cfg, stmts):
+        for s in stmts:
+            if s['op'] == 'declare':
+                def call(s=s, cfg=cfg):
+                    log.append(s['id'])
+                    seg['stack'].append(s['id'])
+                    try:
+                        run_stmts(cfg, s['body'])
+                    finally:
+                        seg['stack'].pop()
+                rp = cfg.route_prefix
+                declared.append([s['id'], labels(cfg.includepath), labels(rp.split('/')) if rp else []])
+                if seg['stack']:
+                    seg['during'].setdefault(seg['stack'][-1], []).append(s['id'])
+                else:
+                    seg['top'].append(s['id'])
+                cfg.action(_mk_disc(s, log, evals), call, order=s['order'])
+            elif s['op'] == 'include':
+                def inc(c, s=s):
+                    run_stmts(c, s['body'])
+                inc.__name__ = inc.__qualname__ = 'inc_%03d' % s['spec']
+                inc.__module__ = __name__
+                cfg.include(inc, route_prefix=None if s['rp'] is None else 'rp_%03d' % s['rp'])
+            else:
+                if auto:
+                    cfg.commit()
+                    continue
+                exc = None
+                del log[:]
+                evals.clear()
+                try:
+                    cfg.commit()
+                except Exception as e:
+                    exc = e
+                out = _outcome(exc, log, evals, nodes)
+                out['flat'] = {'top': list(seg['top']), 'during': {str(k): v for k, v in seg['during'].items()}}
+                commits.append(out)
+                seg['top'], seg['during'] = [], {}
+                if exc is not None:
+                    raise _Abort()
+
+    aborted, crash = False, None
+    try:
+        run_stmts(config, case['prog'])
+    except _Abort:
+        aborted = True
+    except Exception as e:            # anything else is reported, never swallowed
+        crash = '%s: %s' % (type(e).__name__, e)
+    res = {'declared': declared, 'crash': crash}
+    if auto:
+        res.update({'log': list(log), 'discs': [[i, evals[i][1] if i in evals else nodes[i]['disc']] for i in log]})
+        res['evals'] = sorted([i, t, v] for i, (t, v) in evals.items())
+        return res
+    res.update({'commits': commits, 'aborted': aborted,
+                'pending': [[d[0], d[1]] for d in declared if d[0] in set(seg['top'])]})
+    res['pending_count'] = len(config.action_state.actions)
+    res['pending_paths'] = [labels(a['includepath']) for a in config.action_state.actions]
+    return res
+
+
+def tree_decls(stmts, path=(), prefix=()):
+    """syntactic reading of the program: every declare statement with the include specs / route prefixes on the way
+    from the root to the callable that contains it -> {id: (path, prefix)}"""
+    out = {}
+    for s in stmts:
+        if s['op'] == 'declare':
+            out[s['id']] = (list(path), list(prefix))
+            out.update(tree_decls(s['body'], path, prefix))
+        elif s['op'] == 'include':
+            out.update(tree_decls(s['body'], path + (s['spec'],), prefix + (() if s['rp'] is None else (s['rp'],))))
+    return out
+
+
+def ref_declared(case, commit_logs):
+    """reference reading of Configurator.include/commit, driven by the execution order the implementation showed:
+    an include whose spec was processed since the last commit (or start) is skipped; a commit runs the callables
+    of the executed actions in the observed order (each on the configurator that declared it) and then forgets
+    the processed specs.  Returns the expected declaration sequence [id, path, prefix]."""
+    auto = case['autocommit']
+    seen, out, closures = set(), [], {}
+    logs = list(commit_logs)
+
+    def go(stmts, path, prefix):
+        for s in stmts:
+            if s['op'] == 'declare':
+                out.append([s['id'], list(path), list(prefix)])
+                if auto:
+                    go(s['body'], path, prefix)
+                else:
+                    closures[s['id']] = (s['body'], path, prefix)
+            elif s['op'] == 'include':
+                if s['spec'] not in seen:
+                    seen.add(s['spec'])
+                    go(s['body'], path + (s['spec'],), prefix + (() if s['rp'] is None else (s['rp'],)))
+            else:
+                if not auto:
+                    if not logs:
+                        raise _Abort()
+                    lg, ok = logs.pop(0)
+                    for i in lg:
+                        if i not in closures:      # the implementation executed an action the reference never declared
+                            out.append(['executed-but-not-declared', i])
+                            raise _Abort()
+                        b, p, q = closures[i]
+                        go(b, p, q)
+                    if not ok:
+                        raise _Abort()
+                seen.clear()
+    try:
+        go(case['prog'], (), ())
+    except _Abort:
+        pass
+    return out
+
+
+def flat_case(case, commit):
+    """the commit as a C04 action program: the actions pending at the commit with the include paths the
+    configurator gave them, each executed action with the actions its callable declared"""
+    nodes = {s['id']: s for s, _ in walk_prog(case['prog']) if s['op'] == 'declare'}
+    paths = commit['paths']
+
+    def node(i):
+        return {'id': i, 'disc': nodes[i]['disc'], 'order': nodes[i]['order'], 'path': paths[i],
+                'adds': [node(k) for k in commit['flat']['during'].get(str(i), [])]}
+    return {'via': 'state', 'top': [node(i) for i in commit['flat']['top']]}
+
+
+def judge_program(case, got):
+    if got.get('crash'):
+        return {'case': case, 'impl': got, 'expected': None, 'detail': 'unexpected exception: %s' % got['crash']}
+    td = tree_decls(case['prog'])
+    wrong = [d for d in got['declared'] if [d[1], d[2]] != [td[d[0]][0], td[d[0]][1]]]
+    if wrong:
+        return {'case': case, 'impl': got, 'expected': {str(d[0]): td[d[0]] for d in wrong},
+                'detail': 'include path / route prefix of a declaration is not the chain of include specs / prefixes '
+                          'from the root to the declaring callable: %s' % wrong[:3]}
+    if case['autocommit']:
+        ref = ref_declared(case, [])
+        exp_log = [d[0] for d in ref]
+        if got['declared'] != ref or got['log'] != exp_log:
+            return {'case': case, 'impl': got, 'expected': {'declared': ref, 'log': exp_log},
+                    'detail': 'autocommit: every declaration must execute immediately, in declaration order, a re-included spec must be skipped'}
+        return None
+    ref = ref_declared(case, [(c['log'], c['out'] == 'ok') for c in got['commits']])
+    if got['declared'] != ref:
+        return {'case': case, 'impl': got, 'expected': {'declared': ref},
+                'detail': 'declarations differ from the reference reading of include/commit (processSpec short-cut, specs forgotten at commit)'}
+    paths = {d[0]: d[1] for d in got['declared']}
+    for n, c in enumerate(got['commits']):
+        c = dict(c, paths=paths)
+        flat = flat_case(case, c)
+        if not well_formed(flat):
+            return {'case': case, 'impl': got, 'expected': None, 'detail': 'commit %d: derived action program is ill-formed' % n}
+        v = judge(flat, c)
+        if v:
+            return {'case': case, 'impl': got, 'expected': v['expected'], 'commit': n, 'flat': flat,
+                    'detail': 'commit %d: %s' % (n, v['detail'])}
+    ncommit = sum(1 for s, _ in walk_prog(case['prog']) if s['op'] == 'commit')
+    if not got['aborted'] and got['pending_count'] != len(got['pending']):
+        return {'case': case, 'impl': got, 'expected': None, 'detail': 'pending actions after the run are not the ones declared since the last commit'}
+    return None
+
+
+PVIEW = ('out', 'keys', 'regress', 'log', 'discs')
+
+
+def compare_model_program(case, got, mo):
+    if mo is None:
+        return None
+    bad = 'error' in mo
+    if not bad and case['autocommit']:
+        bad = got['log'] != mo['log'] or got['discs'] != mo['discs'] or got['declared'] != mo['declared']
+    elif not bad:
+        bad = (mo['bad'] or got['aborted'] != mo['aborted'] or got['declared'] != mo['declared']
+               or got['pending'] != mo['pending'] or got['pending_paths'] != [p[1] for p in mo['pending']]
+               or len(got['commits']) != len(mo['commits'])
+               or any(any(g[k] != m[k] for k in PVIEW) for g, m in zip(got['commits'], mo['commits'])))
+    if bad:
+        return {'case': case, 'impl': {k: v for k, v in got.items()}, 'model': mo}
+    return None
+
+
+def gen_program(rng):
+    auto = rng.random() < 0.12
+    nspec = rng.choice([2, 3, 3, 4, 5])
+    phases = rng.choice([[0], [0], [0, 10], [-10, 0], [0, 10], [-10, 0, 10]])
+    ndisc = rng.choice([1, 2, 2, 3])
+    pnone = rng.choice([0.15, 0.3, 0.5])
+    pdef = rng.choice([0, 0, 0.15, 0.3])
+    pbody = rng.choice([0, 0.15, 0.3])
+    pcommit = rng.choice([0, 0.05, 0.12, 0.2])
+    counter = [0]
+    budget = [rng.choice([4, 6, 8, 10, 12, 14])]
+
+    def declare(depth, in_body, min_phase):
+        i = counter[0]; counter[0] += 1; budget[0] -= 1
+        disc = None if rng.random() < pnone else rng.randint(1, ndisc)
+        order = rng.choice(phases)
+        if in_body and order < min_phase and rng.random() < 0.85:
+            order = min_phase
+        if disc is not None and rng.random() < pdef:
+            other = rng.choice([None, rng.randint(1, ndisc)])
+            dep = rng.randrange(0, max(1, counter[0] + 2))
+            disc = {'dep': dep, 'a': disc, 'b': other} if rng.random() < 0.5 else {'dep': dep, 'a': other, 'b': disc}
+        body = []
+        if depth < 3 and budget[0] > 0 and rng.random() < pbody:
+            body = stmts(depth + 1, True, order, rng.choice([1, 1, 2]))
+        return {'op': 'declare', 'id': i, 'disc': disc, 'order': order, 'body': body}
+
+    def stmts(depth, in_body, min_phase, n):
+        out = []
+        for _ in range(n):
+            if budget[0] <= 0:
+                break
+            r = rng.random()
+            if r < pcommit and (auto or not in_body):
+                out.append({'op': 'commit'})
+            elif r < pcommit + 0.3 and depth < 4:
+                budget[0] -= 1
+                out.append({'op': 'include', 'spec': rng.randint(1, nspec), 'rp': rng.choice([None, None, rng.randint(1, 3)]),
+                            'body': stmts(depth + 1, in_body, min_phase, rng.choice([1, 2, 2, 3]))})
+            else:
+                out.append(declare(depth, in_body, min_phase))
+        return out
+
+    prog = stmts(0, False, -100, rng.choice([2, 3, 4, 5, 6, 8]))
+    if not auto and rng.random() < 0.8:
+        prog.append({'op': 'commit'})
+    if not auto and _commit_under_prefix(prog, False):
+        def strip(ss):
+            for x in ss:
+                if x['op'] == 'include':
+                    x['rp'] = None
+                    strip(x['body'])
+        strip(prog)
+    return {'via': 'program', 'autocommit': auto, 'prog': prog}
+
+
+def model_input(case):
+    if case['via'] == 'program':
+        return {'prog': case['prog'], 'autocommit': case['autocommit']}
+    return {'top': case['top']}
+
+
 def impl(case):
+    if case['via'] == 'program':
+        return impl_program(case)
     if case['via'] == 'config':
         return impl_config(case, full=bool(case.get('full')))
     return impl_state(case)
@@ -328,6 +661,8 @@ VIEW = ('out', 'keys', 'regress', 'log')
 
 def judge(case, got):
     """property oracle on one implementation trace -> violation dict or None"""
+    if case['via'] == 'program':
+        return judge_program(case, got)
     exp = expected(case)
     if got.get('include_paths_wrong'):
         return {'case': case, 'impl': got, 'expected': spec_view(exp),
@@ -355,6 +690,8 @@ def model_view(mo):
 def compare_model(case, got, mo):
     if mo is None:
         return None
+    if case['via'] == 'program':
+        return compare_model_program(case, got, mo)
     if 'error' in mo or not mo.get('wf') or any(got[k] != mo.get(k) for k in VIEW) or got['discs'] != mo.get('discs'):
         return {'case': case, 'impl': {k: got[k] for k in VIEW + ('discs',)}, 'model': mo}
     return None
@@ -485,12 +822,15 @@ def run(ctx):
     cases += scope
     ncorpus += len(scope)
     cases += [gen_case(rng) for _ in range(n)]
-    model = ctx.run_model([{'top': c['top']} for c in cases]) if ctx.driver_path else [None] * len(cases)
+    cases += [gen_program(rng) for _ in range(ctx.n(2500, 40000))]
+    model = ctx.run_model([model_input(c) for c in cases]) if ctx.driver_path else [None] * len(cases)
     mism, viol, agree = [], [], 0
     seen, nontriv = set(), set()
     dist = {'via': {}, 'outcome': {}, 'declared_actions': {}, 'phases_used': {}, 'with_adds': 0, 'with_deferred': 0,
             'shared_discriminator': 0, 'overridden_some': 0, 'executed_len': {}, 'static_spec_checked': 0,
-            'late_siblings_discarded': 0, 'include_depth_max': {}, 'full_configurator': 0, 'conflict_key_count': {}}
+            'late_siblings_discarded': 0, 'include_depth_max': {}, 'full_configurator': 0, 'conflict_key_count': {},
+            'program': {'autocommit': 0, 'commits': {}, 'reincluded_spec': 0, 'include_in_action_body': 0, 'aborted': 0,
+                        'commit_outcomes': {}, 'declared': {}, 'with_route_prefix': 0, 'nesting_max': {}}}
     for case, mo in zip(cases, model):
         got = impl(case)
         m = compare_model(case, got, mo)
@@ -508,6 +848,25 @@ def run(ctx):
             if any(sp[k] != mo[k] for k in ('out', 'keys', 'log')):
                 mism.append({'case': case, 'impl': 'lean model vs lean spec', 'model': mo})
         key = json.dumps(case, sort_keys=True)
+        if case['via'] == 'program':
+            pd = dist['program']
+            vfutil.bump(dist['via'], 'program')
+            sts = list(walk_prog(case['prog']))
+            if case['autocommit']: pd['autocommit'] += 1
+            vfutil.bump(pd['commits'], len(got.get('commits', [])))
+            for c in got.get('commits', []): vfutil.bump(pd['commit_outcomes'], c['out'])
+            if got.get('aborted'): pd['aborted'] += 1
+            vfutil.bump(pd['declared'], min(len(got['declared']), 15))
+            incs = [x for x, _ in sts if x['op'] == 'include']
+            if len({x['spec'] for x in incs}) < len(incs): pd['reincluded_spec'] += 1
+            if any(x['op'] == 'include' and b for x, b in sts): pd['include_in_action_body'] += 1
+            if any(d[2] for d in got['declared']): pd['with_route_prefix'] += 1
+            vfutil.bump(pd['nesting_max'], max([len(d[1]) for d in got['declared']] or [0]))
+            if key not in seen:
+                seen.add(key)
+                if len(got['declared']) >= 2 and (incs or len(got.get('commits', [])) > 1):
+                    nontriv.add(key)
+            continue
         nds = list(walk(case['top']))
         vfutil.bump(dist['via'], case['via'] + ('+full' if case.get('full') else ''))
         vfutil.bump(dist['outcome'], got['out'])
@@ -600,8 +959,11 @@ def replay(ctx, rep):
     if case is None:
         return {'violates': False, 'note': 'replay names broken obligations only', 'broken': rep.get('broken_obligations')}
     got = impl(case)
-    mo = ctx.run_model([{'top': case['top']}])[0] if ctx.driver_path else None
+    mo = ctx.run_model([model_input(case)])[0] if ctx.driver_path else None
     v = judge(case, got)
+    if case['via'] == 'program':
+        return {'case': case, 'impl': got, 'model': mo, 'mismatch': compare_model(case, got, mo),
+                'detail': (v or {}).get('detail'), 'violates': bool(v)}
     return {'case': case, 'impl': got, 'model': mo, 'spec': spec_view(expected(case)),
             'mismatch': compare_model(case, got, mo), 'finding': (v or {}).get('finding'),
             'detail': (v or {}).get('detail'), 'violates': bool(v)}
